@@ -56,6 +56,10 @@ func chainSource(v ssa.Value, names map[string]bool, idx int, seen map[*ssa.Phi]
 			return false, true, ""
 		}
 		return false, false, "result of " + x.Tuple.String()
+	case *ssa.Call:
+		if n, _ := bitsCallee(x); n == "Rem64" && names[n] { // single result: the remainder itself
+			return false, true, ""
+		}
 	case *ssa.Phi:
 		if seen[x] {
 			return false, false, ""
@@ -266,4 +270,51 @@ func usesBig(fn *ssa.Function) bool {
 		}
 	})
 	return found
+}
+
+// c07ChallengeReduction: the storage-proof challenge index is the 256-bit seed reduced modulo the leaf count, one
+// word at a time: the running remainder is the HIGH word of each step (bits.Div64 / bits.Rem64), starting at zero.
+func c07ChallengeReduction(c *Ctx) {
+	const rule = "challenge-reduction"
+	fn := c.P.Func("consensus.(State).StorageProofLeafIndex")
+	if fn == nil {
+		c.Undecided(rule, "anchor", "", "(State).StorageProofLeafIndex does not resolve")
+		return
+	}
+	c.NoteFunc(FuncName(fn))
+	names := map[string]bool{"Div64": true, "Rem64": true}
+	var calls []*ssa.Call
+	walkFuncAndHelpers(fn, func(in ssa.Instruction) {
+		if v, ok := in.(ssa.Value); ok {
+			if nm, call := bitsCallee(v); names[nm] {
+				calls = append(calls, call)
+			}
+		}
+	})
+	if len(calls) == 0 {
+		if usesBig(fn) {
+			c.Check(true, rule, "StorageProofLeafIndex", c.P.Pos(fn.Pos()), "delegated to math/big")
+			return
+		}
+		c.Undecided(rule, "StorageProofLeafIndex", c.P.Pos(fn.Pos()), "no bits.Div64/Rem64 step found: the reduction is spelled in a way this rule does not read")
+		return
+	}
+	bad := ""
+	for _, call := range calls {
+		z, cy, other := chainSource(call.Call.Args[0], names, 1, map[*ssa.Phi]bool{})
+		switch {
+		case other != "":
+			bad = "the high word of the step at " + c.P.Pos(call.Pos()) + " is " + other + ", not the running remainder"
+		case !cy && blockInLoop(call.Block()):
+			bad = "the high word of the step at " + c.P.Pos(call.Pos()) + " is always 0: the remainder of one word never reaches the next"
+		case cy && !z:
+			bad = "the running remainder at " + c.P.Pos(call.Pos()) + " has no zero start"
+		}
+		// the divisor is the leaf count, never the running remainder or a seed word
+		if dependsOn(call.Call.Args[2], func(v ssa.Value) bool { n, _ := bitsCallee(v); return names[n] }, 0, map[ssa.Value]bool{}) {
+			bad = "the divisor of the step at " + c.P.Pos(call.Pos()) + " depends on an earlier step's result"
+		}
+	}
+	c.Check(bad == "", rule, "StorageProofLeafIndex", c.P.Pos(fn.Pos()), ifElse(bad == "", "seed mod leaf count, one word at a time: the running remainder is the high word of every step and starts at zero", bad+": the challenged leaf is no longer H(window ID, contract ID) mod the number of leaves"))
+	c.Min(rule, 1)
 }
